@@ -557,7 +557,13 @@ def _chop(frame: Subframe, time: sc.Variable, close_to_open: bool) -> Subframe |
         if inside_i != inside_j:
             # Intersection
             t = (time - frame.time[i]) / (frame.time[j] - frame.time[i])
-            v = (1 - t) * frame.wavelength[i] + t * frame.wavelength[j]
+            if frame.wavelength[i] == frame.wavelength[j]:
+                # Both ends of the edge have the same wavelength. Reuse it: the
+                # interpolation below may round to a neighboring value, which breaks
+                # the exact ties `is_regular` relies on.
+                v = frame.wavelength[i]
+            else:
+                v = (1 - t) * frame.wavelength[i] + t * frame.wavelength[j]
             output.append((time, v))
     if not output:
         return None
